@@ -1874,3 +1874,240 @@ Proof.
     + exact Hfo.
     + intros _ Hu. discriminate.
 Qed.
+
+(** * arena versions only grow: no ABA *)
+Definition slot_ge (a b : slot) : Prop := b = a \/ s_ver a < s_ver b.
+Definition arena_le (c c' : core) : Prop :=
+  forall i s, nth_error (slots c) i = Some s ->
+  exists s', nth_error (slots c') i = Some s' /\ slot_ge s s'.
+
+Lemma arena_le_refl c : arena_le c c.
+Proof. intros i s Hs. exists s. split; [auto|left; reflexivity]. Qed.
+Lemma arena_le_trans a b c : arena_le a b -> arena_le b c -> arena_le a c.
+Proof.
+  intros H1 H2 i s Hs. destruct (H1 i s Hs) as (s1 & Hs1 & G1). destruct (H2 i s1 Hs1) as (s2 & Hs2 & G2).
+  exists s2. split; [auto|]. destruct G1 as [->|G1], G2 as [->|G2]; unfold slot_ge; auto. right. lia.
+Qed.
+Lemma arena_le_same c c' : slots c' = slots c -> arena_le c c'.
+Proof. intros E i s Hs. exists s. rewrite E. split; [auto|left; reflexivity]. Qed.
+Lemma arena_le_mono c c' : mono c c' -> arena_le c c'.
+Proof.
+  intros M i s Hs. destruct (Forall2_nth_l _ _ _ (mo_slots _ _ M) _ _ Hs) as (b & Hb & [E|(_ & Hlt)]);
+    exists b; split; auto; [left; exact E|right; exact Hlt].
+Qed.
+
+Lemma arena_le_insert it c : free_ok c -> arena_le c (snd (insert it c)).
+Proof.
+  intros [Hnd Hv] i s Hs. unfold insert. destruct (free c) as [|j fr] eqn:Ef.
+  - cbn. exists s. split; [|left; reflexivity]. rewrite nth_error_app1; [auto|]. apply nth_error_Some; congruence.
+  - destruct (Hv j (or_introl eq_refl)) as (sj & Hsj & _). rewrite Hsj. cbn.
+    destruct (Nat.eq_dec i j) as [->|Hne].
+    + rewrite nth_error_upd_same, Hsj. cbn. eexists. split; [reflexivity|].
+      rewrite Hsj in Hs. inversion Hs; subst. right. cbn. lia.
+    + rewrite nth_error_upd_other by exact Hne. exists s. split; [auto|left; reflexivity].
+Qed.
+
+(** a key that resolved and no longer does is stale for ever *)
+Definition stale (c : core) (k : key) : Prop :=
+  exists s, nth_error (slots c) (fst k) = Some s /\ snd k < s_ver s.
+
+Lemma stale_get c k : stale c k -> get c k = None.
+Proof.
+  intros (s & Hs & Hlt). unfold get. rewrite Hs. destruct (Nat.eqb_spec (s_ver s) (snd k)); [lia|reflexivity].
+Qed.
+Lemma stale_le c c' k : arena_le c c' -> stale c k -> stale c' k.
+Proof.
+  intros H (s & Hs & Hlt). destruct (H _ _ Hs) as (s' & Hs' & [E|G]); exists s'; split; auto; [subst; lia|lia].
+Qed.
+Lemma disposed_is_stale c c' k : arena_le c c' -> contains c k = true -> contains c' k = false -> stale c' k.
+Proof.
+  intros H Hc Hn. unfold contains, get in *.
+  destruct (nth_error (slots c) (fst k)) as [s|] eqn:Hs; [|discriminate].
+  destruct (Nat.eqb_spec (s_ver s) (snd k)) as [Ev|]; [|discriminate].
+  destruct (H _ _ Hs) as (s' & Hs' & [->|G]).
+  - rewrite Hs', Ev, Nat.eqb_refl in Hn. destruct (s_item s); discriminate.
+  - exists s'. split; [auto|lia].
+Qed.
+
+(** * one relation for every step: keeps the invariant, never lowers a version, never forgets
+      an owner *)
+Definition cstep_ok (c c' : core) : Prop :=
+  (cinv c -> cinv c') /\ arena_le c c' /\ length (owners c) <= length (owners c').
+
+Lemma cstep_refl c : cstep_ok c c.
+Proof. split; [auto|split; [apply arena_le_refl|lia]]. Qed.
+Lemma cstep_trans a b c : cstep_ok a b -> cstep_ok b c -> cstep_ok a c.
+Proof. intros (I1 & A1 & L1) (I2 & A2 & L2). split; [auto|split; [eapply arena_le_trans; eauto|lia]]. Qed.
+
+Lemma cstep_skel c c' : same_skel c c' -> cstep_ok c c'.
+Proof.
+  intros S. split; [apply cinv_skel; auto|split; [apply arena_le_same, (sk_slots _ _ S)|]].
+  rewrite (Forall2_len _ _ _ (sk_owners _ _ S)). lia.
+Qed.
+Lemma cstep_exec f j c : cstep_ok c (exec f j c).
+Proof.
+  split; [apply cinv_exec|split; [apply arena_le_mono, exec_mono|]].
+  rewrite (mono_len _ _ (exec_mono f j c)). lia.
+Qed.
+Lemma cstep_new_owner parent c : cstep_ok c (snd (new_owner parent c)).
+Proof.
+  split; [apply cinv_new_owner|]. rewrite new_owner_eq. cbn [snd].
+  destruct (match parent with Some p => if alive c p then Some p else None | None => None end);
+    (split; [apply arena_le_same; reflexivity|]); unfold upd_owner; cbn;
+    rewrite ?length_upd, app_length; lia.
+Qed.
+Lemma cstep_reg o c : cstep_ok c (reg_cleanup o c).
+Proof.
+  split; [apply cinv_reg_cleanup|]. unfold reg_cleanup.
+  destruct (alive c o); (split; [apply arena_le_same; reflexivity|]); unfold upd_owner; cbn;
+    rewrite ?length_upd; lia.
+Qed.
+Lemma cstep_alloc o it c : (cinv c -> memo_ok c o it) -> cstep_ok c (snd (alloc o it c)).
+Proof.
+  intros Hm. split; [intros I; apply cinv_alloc; auto|].
+  assert (Hown : length (owners (snd (insert it c))) = length (owners c)).
+  { unfold insert. destruct (free c) as [|j fr]; [reflexivity|].
+    destruct (nth_error (slots c) j); reflexivity. }
+  assert (Har : arena_le c (snd (insert it c))).
+  { intros i s Hs. unfold insert. destruct (free c) as [|j fr] eqn:Ef.
+    - cbn. exists s. split; [|left; reflexivity]. rewrite nth_error_app1; [auto|]. apply nth_error_Some; congruence.
+    - destruct (nth_error (slots c) j) as [sj|] eqn:Hsj; cbn.
+      + destruct (Nat.eq_dec i j) as [->|Hne].
+        * rewrite nth_error_upd_same, Hsj. cbn. eexists. split; [reflexivity|].
+          rewrite Hsj in Hs. inversion Hs; subst. right. cbn. lia.
+        * rewrite nth_error_upd_other by exact Hne. exists s. split; [auto|left; reflexivity].
+      + exists s. split; [|left; reflexivity]. rewrite nth_error_app1; [auto|]. apply nth_error_Some; congruence. }
+  rewrite alloc_eq. cbn zeta. destruct (alive c o); cbn [snd]; (split; [exact Har|]).
+  - unfold upd_owner. cbn. rewrite length_upd. lia.
+  - cbn. lia.
+Qed.
+
+(** * every program step is made of such steps *)
+(** owners named by effects and memos exist *)
+Definition bwf (s : bstate) : Prop :=
+  Forall (fun e => e_owner e < length (owners (b_core s))) (effs s) /\
+  Forall (fun m => m_owner m < length (owners (b_core s))) (memos s).
+
+Definition bstep_ok (s s' : bstate) : Prop :=
+  cstep_ok (b_core s) (b_core s') /\ (bwf s -> bwf s').
+
+Lemma bstep_refl s : bstep_ok s s. Proof. split; [apply cstep_refl|auto]. Qed.
+Lemma bstep_trans a b c : bstep_ok a b -> bstep_ok b c -> bstep_ok a c.
+Proof. intros [C1 W1] [C2 W2]. split; [eapply cstep_trans; eauto|auto]. Qed.
+Lemma bstep_len s s' : bstep_ok s s' -> length (owners (b_core s)) <= length (owners (b_core s')).
+Proof. intros [(_ & _ & H) _]. exact H. Qed.
+
+Lemma bwf_grow s s' : effs s' = effs s -> memos s' = memos s ->
+  length (owners (b_core s)) <= length (owners (b_core s')) -> bwf s -> bwf s'.
+Proof.
+  intros Ee Em Hl [H1 H2]. unfold bwf. rewrite Ee, Em. split.
+  - eapply Forall_impl; [|exact H1]. cbn. intros; lia.
+  - eapply Forall_impl; [|exact H2]. cbn. intros; lia.
+Qed.
+
+(** a step that only changes the core *)
+Lemma bstep_core s c : cstep_ok (b_core s) c -> bstep_ok s (set_core s c).
+Proof. intros H. split; [exact H|]. apply bwf_grow; auto. destruct H as (_ & _ & H). exact H. Qed.
+
+Lemma new_owner_memo_ok cur m c : cur < length (owners c) ->
+  memo_ok (snd (new_owner (Some cur) c)) cur (IMemo m (length (owners c))).
+Proof.
+  intros Hlt. cbn [memo_ok]. intros Hal.
+  destruct (alive c cur) eqn:Hc.
+  - destruct (new_owner_child cur c Hc) as (_ & _ & H). exact H.
+  - exfalso. rewrite new_owner_eq in Hal. cbn [snd] in Hal. rewrite Hc in Hal.
+    unfold alive in *. cbn in Hal. rewrite nth_error_app1 in Hal by exact Hlt. congruence.
+Qed.
+
+Lemma blog_ok s l : cids l = [] -> bstep_ok s (blog s l).
+Proof. intros H. apply bstep_core, cstep_skel, skel_log, H. Qed.
+
+Lemma new_owner_len parent c : length (owners (snd (new_owner parent c))) = S (length (owners c)).
+Proof.
+  rewrite new_owner_eq. cbn [snd].
+  destruct (match parent with Some p => if alive c p then Some p else None | None => None end);
+    unfold upd_owner; cbn; rewrite ?length_upd, app_length; cbn; lia.
+Qed.
+
+Lemma exec_stmt_ok : forall st cur s, cur < length (owners (b_core s)) -> bstep_ok s (exec_stmt cur st s).
+Proof.
+  fix IH 1. intros st cur s Hcur. destruct st as [| | |ty v|ty|b|b|b]; cbn [exec_stmt].
+  - pose proof (cstep_alloc cur (IVal (length (handles s))) (b_core s) (fun _ => I)) as H.
+    destruct (alloc cur (IVal (length (handles s))) (b_core s)) as [k c]. cbn [snd] in H.
+    split; [exact H|]. apply bwf_grow; auto. destruct H as (_ & _ & H). exact H.
+  - pose proof (cstep_alloc cur (IVal (length (handles s))) (b_core s) (fun _ => I)) as H.
+    destruct (alloc cur (IVal (length (handles s))) (b_core s)) as [k c]. cbn [snd] in H.
+    split; [exact H|]. apply bwf_grow; auto. destruct H as (_ & _ & H). exact H.
+  - apply bstep_core, cstep_reg.
+  - apply bstep_core, cstep_skel, skel_provide.
+  - apply blog_ok. reflexivity.
+  - pose proof (cstep_new_owner (Some cur) (b_core s)) as H.
+    pose proof (new_owner_len (Some cur) (b_core s)) as Hl.
+    assert (Ho : fst (new_owner (Some cur) (b_core s)) = length (owners (b_core s))) by reflexivity.
+    destruct (new_owner (Some cur) (b_core s)) as [o c]. cbn [fst snd] in *. subst o.
+    set (o := length (owners (b_core s))) in *.
+    set (s1 := mkB c (effs s) (memos s) (handles s) (holders s ++ [(HUser true, b)]) (allkeys s)).
+    assert (H1 : bstep_ok s s1).
+    { split; [exact H|]. apply bwf_grow; auto. cbn. lia. }
+    assert (Hgo : forall l s0, o < length (owners (b_core s0)) ->
+              bstep_ok s0 ((fix go (l : list stmt) (s : bstate) : bstate :=
+                              match l with [] => s | x :: r => go r (exec_stmt o x s) end) l s0)).
+    { induction l as [|x l IHl]; intros s0 Hs0; [apply bstep_refl|].
+      pose proof (IH x o s0 Hs0) as Hx.
+      eapply bstep_trans; [exact Hx|]. apply IHl. pose proof (bstep_len _ _ Hx). lia. }
+    eapply bstep_trans; [exact H1|]. apply Hgo. cbn. lia.
+  - pose proof (cstep_new_owner (Some cur) (b_core s)) as H.
+    pose proof (new_owner_len (Some cur) (b_core s)) as Hl.
+    assert (Ho : fst (new_owner (Some cur) (b_core s)) = length (owners (b_core s))) by reflexivity.
+    destruct (new_owner (Some cur) (b_core s)) as [o c]. cbn [fst snd] in *. subst o.
+    pose proof (cstep_alloc cur (IEffect (length (effs s))) c (fun _ => I)) as H2.
+    destruct (alloc cur (IEffect (length (effs s))) c) as [k c2]. cbn [snd] in H2.
+    pose proof (cstep_trans _ _ _ H H2) as H3. split; [exact H3|].
+    intros [W1 W2]. destruct H2 as (_ & _ & Hle2). split; cbn [effs memos b_core].
+    + apply Forall_app. split.
+      * eapply Forall_impl; [|exact W1]. cbn. intros; lia.
+      * constructor; [cbn; lia|constructor].
+    + eapply Forall_impl; [|exact W2]. cbn. intros; lia.
+  - pose proof (cstep_new_owner (Some cur) (b_core s)) as H.
+    pose proof (new_owner_len (Some cur) (b_core s)) as Hl.
+    pose proof (new_owner_memo_ok cur (length (memos s)) (b_core s) Hcur) as Hm.
+    assert (Ho : fst (new_owner (Some cur) (b_core s)) = length (owners (b_core s))) by reflexivity.
+    destruct (new_owner (Some cur) (b_core s)) as [o c]. cbn [fst snd] in *. subst o.
+    pose proof (cstep_alloc cur (IMemo (length (memos s)) (length (owners (b_core s)))) c (fun _ => Hm)) as H2.
+    destruct (alloc cur (IMemo (length (memos s)) (length (owners (b_core s)))) c) as [k c2]. cbn [snd] in H2.
+    pose proof (cstep_trans _ _ _ H H2) as H3. split; [exact H3|].
+    intros [W1 W2]. destruct H2 as (_ & _ & Hle2). split; cbn [effs memos b_core].
+    + eapply Forall_impl; [|exact W1]. cbn. intros; lia.
+    + apply Forall_app. split.
+      * eapply Forall_impl; [|exact W2]. cbn. intros; lia.
+      * constructor; [cbn; lia|constructor].
+Qed.
+
+Lemma exec_body_ok cur b : forall s, cur < length (owners (b_core s)) -> bstep_ok s (exec_body cur b s).
+Proof.
+  unfold exec_body. induction b as [|x b IHb]; intros s Hs; cbn [fold_left]; [apply bstep_refl|].
+  pose proof (exec_stmt_ok x cur s Hs) as Hx. eapply bstep_trans; [exact Hx|].
+  apply IHb. pose proof (bstep_len _ _ Hx). lia.
+Qed.
+
+Lemma bwf_eff s i e : bwf s -> nth_error (effs s) i = Some e -> e_owner e < length (owners (b_core s)).
+Proof. intros [H _] Hn. rewrite Forall_forall in H. apply H. eapply nth_error_In; eauto. Qed.
+Lemma bwf_memo s i m : bwf s -> nth_error (memos s) i = Some m -> m_owner m < length (owners (b_core s)).
+Proof. intros [_ H] Hn. rewrite Forall_forall in H. apply H. eapply nth_error_In; eauto. Qed.
+
+Lemma Forall_upd {A} (P : A -> Prop) (f : A -> A) l : (forall x, P x -> P (f x)) ->
+  forall i, Forall P l -> Forall P (upd i f l).
+Proof.
+  intros Hf. induction l as [|y l IH]; intros [|i] H; cbn; auto; inversion H; subst; constructor; auto.
+Qed.
+
+Lemma set_eff_ok s i f : (forall e, e_owner (f e) = e_owner e) -> bstep_ok s (set_eff s i f).
+Proof.
+  intros Hf. split; [apply cstep_refl|]. intros [W1 W2]. split; cbn; [|exact W2].
+  apply Forall_upd; [|exact W1]. intros e He. rewrite Hf. exact He.
+Qed.
+Lemma set_memo_ok s i f : (forall m, m_owner (f m) = m_owner m) -> bstep_ok s (set_memo s i f).
+Proof.
+  intros Hf. split; [apply cstep_refl|]. intros [W1 W2]. split; cbn; [exact W1|].
+  apply Forall_upd; [|exact W2]. intros e He. rewrite Hf. exact He.
+Qed.
